@@ -83,8 +83,17 @@ func runC11(t *rapid.T, prop string) {
 		leaf := newLeaf()
 		// predicted append from the append path
 		var pred *rmt.RootWithAppendPath
+		// (a caller hands over what AppendPath() returns, as it is, or a copy of it; it may ask about another leaf first)
+		path := tree.AppendPath()
+		if simkit.Bool(t, "predictfromcopy") {
+			path = copyPath(path)
+		}
 		predPanic := safely(func() {
-			pred = rmt.CalculateRootFromAppendPath(leaf, copyPath(tree.AppendPath()), tree.Size())
+			if simkit.Chance(t, "predicttwice", 1, 3) {
+				_ = rmt.CalculateRootFromAppendPath(newLeaf(), path, tree.Size())
+				simkit.Probe("predicted_for_an_alternative_leaf_first")
+			}
+			pred = rmt.CalculateRootFromAppendPath(leaf, path, tree.Size())
 		})
 		if err := tree.Append(leaf); err != nil {
 			fail("append", "error", "Append returned %v", err)
